@@ -371,6 +371,21 @@ def check_add_edge(ctx, res: Result, cls: str):
             )
         res.check(is_acc, "P-ACCUM", f, norm(o.node), "existing", "re-inserting an existing hyperedge must add the new weight to the stored one (`+= weight`)", _where(v, o.node))
         res.check(_under_flag(v, o.at, "_weighted", True), "P-ACCUM", f, norm(o.node), "weighted-only", "the weight of an existing record is changed although the hypergraph may be unweighted (re-insert must be idempotent)", _where(v, o.node))
+        # the merge does not depend on whether metadata was supplied: `elif metadata is not None: <replace> elif self._weighted: += weight`
+        # skips the accumulation for a re-insertion that carries metadata (remove_node(keep_edges=True) always hands metadata on)
+        if is_acc:
+            aid = v.cfg_id(o.at)
+            dep = None
+            for iff in walk_no_nested(v.fi.node):
+                if not isinstance(iff, ast.If) or aid is None:
+                    continue
+                tid = v.cfg.by_ast.get(id(iff.test))
+                if tid is None:
+                    continue
+                names = {x.id for x in ast.walk(iff.test) if isinstance(x, ast.Name)}
+                if "metadata" in names and "weight" not in names and any(v.cfg.branch_dominated(tid, lab, aid) for lab in ("T", "F")):
+                    dep = iff
+            res.check(dep is None, "P-ACCUM", f, norm(o.node), "whatever-the-metadata", f"the weight of an existing record is accumulated only on one side of `{norm(dep.test)[:50] if dep is not None else ''}`: a re-insertion that carries metadata (or one that does not) replaces the metadata and loses the weight it should add", _where(v, o.node))
     if not outside:
         via = [o for o in v.ops(with_calls=True) if o.table == "_weights" and o.op in ("store", "aug") and o.via]
         if via:
@@ -715,6 +730,70 @@ def check_record_counters(ctx, res: Result, cls: str, rule="P-COUNT"):
                 res.unknown(rule, f, norm(inc), attr, "the branch that creates a record was not recognised", loc(add, inc))
             else:
                 res.check(guarded, rule, f, norm(inc), attr, f"`{norm(inc)[:60]}` runs on every call of add_edge, also when the key exists already and only the weight is merged; {dfi.short} takes one off per removed RECORD (`{norm(dn)}`), so after a repeated insertion the count of `{attr}` never returns to zero and what is derived from its keys (min / max / membership) reports something that has no record", loc(add, inc))
+
+
+def check_keyed_memo_invalidation(ctx, res: Result, cls: str, rule="E-CACHE"):
+    """A table of remembered query results keyed by the query's arguments (`self._order_views[(order, up_to)] = view`).  When the value
+    stored under a key is computed with an INEQUALITY against a component of the key (`len(edge) - 1 <= order`), it depends on the
+    records of a whole range of orders; dropping, after an insertion / removal, only the entries whose key component EQUALS the
+    changed record's order (`self._order_views.pop((order, True), None)`) leaves the entries of the larger orders stale.  Reported
+    when the remembering method computes such a range-dependent value and no mutator-side invalidation clears the table as a whole."""
+    ms = ctx.methods(cls)
+    tabs = set(getattr(ctx.interp, "class_tables", {}).get(cls, {}) or {})
+    fills = []
+    for name_, mfi in ms.items():
+        if name_ == "__init__":
+            continue
+        for a in walk_no_nested(mfi.node):
+            if isinstance(a, ast.Assign) and len(a.targets) == 1 and isinstance(a.targets[0], ast.Subscript) and is_self_attr(a.targets[0].value) and a.targets[0].value.attr not in tabs:
+                attr = a.targets[0].value.attr
+                # filled under a "not remembered yet" test of the same table
+                v = ctx.view(mfi)
+                guarded = any(any(is_self_attr(x) and x.attr == attr for x in ast.walk(i_.test)) for i_ in v.enclosing_all(a, (ast.If,)))
+                if guarded:
+                    fills.append((attr, mfi, a))
+    for attr, mfi, a in fills:
+        v = ctx.view(mfi)
+        key = v.inline(a.targets[0].slice, depth=2)
+        knames = {x.id for x in ast.walk(key) if isinstance(x, ast.Name)}
+        # every definition of the stored value in the method
+        vals = [a.value] + [d.value for d in walk_no_nested(mfi.node) if isinstance(a.value, ast.Name) and isinstance(d, ast.Assign) and any(isinstance(t, ast.Name) and t.id == a.value.id for t in d.targets)]
+        rng = None
+        for val in vals:
+            for c in ast.walk(val):
+                if isinstance(c, ast.Compare) and any(isinstance(o, (ast.Lt, ast.LtE, ast.Gt, ast.GtE)) for o in c.ops) and knames & {x.id for x in ast.walk(c) if isinstance(x, ast.Name)}:
+                    rng = c
+        if rng is None:
+            continue
+        # invalidations anywhere in the class
+        whole, point = [], []
+        for name2, m2 in ms.items():
+            for n in walk_no_nested(m2.node):
+                if isinstance(n, ast.Call) and isinstance(n.func, ast.Attribute) and is_self_attr(n.func.value) and n.func.value.attr == attr:
+                    if n.func.attr == "clear":
+                        whole.append((m2, n))
+                    elif n.func.attr == "pop":
+                        point.append((m2, n))
+                if isinstance(n, ast.Delete) and any(isinstance(t, ast.Subscript) and is_self_attr(t.value) and t.value.attr == attr for t in n.targets):
+                    point.append((m2, n))
+                if isinstance(n, ast.Assign) and any(is_self_attr(t) and t.attr == attr for t in n.targets) and name2 != "__init__":
+                    whole.append((m2, n))
+        # the whole-table resets that the record mutators reach (add_edge / remove_edge, directly or through a private helper)
+        reach = set()
+        for mname in ("add_edge", "remove_edge"):
+            if mname in ms:
+                reach.add(ms[mname].qualname)
+                for n in ast.walk(ms[mname].node):
+                    if isinstance(n, ast.Call) and isinstance(n.func, ast.Attribute) and is_self_attr(n.func):
+                        for c_ in ctx.callees(ms[mname], n):
+                            reach.add(c_.qualname)
+        whole_r = [w for w in whole if w[0].qualname in reach]
+        point_r = [p_ for p_ in point if p_[0].qualname in reach]
+        if point_r and not whole_r:
+            m2, n = point_r[0]
+            res.violation(rule, mfi.short, norm(a)[:80], f"range-keyed:{attr}", f"the value remembered under `{norm(a.targets[0].slice)[:30]}` is computed with `{norm(rng)[:40]}` - it covers the records of a RANGE of orders - but add_edge / remove_edge only drop single entries ({m2.short}: `{norm(n)[:50]}`): after a record of a smaller order comes or goes, the entry of a larger order still lists the old records", loc(mfi, a))
+        else:
+            res.ok(rule, mfi.short, norm(a)[:80], f"range-keyed:{attr}", loc(mfi, a))
 
 
 def check_weight_accumulation_guarded(ctx, res: Result, cls: str, rule="P-ACCUM"):
